@@ -401,11 +401,11 @@ def r6_declare(report, repo):
 
 
 def run(report, repo):
-  r1_getitem(report, repo)
-  r2_views(report, repo)
-  r3_load(report, repo)
-  r4_who(report, repo)
-  r5_save_restore(report, repo)
-  r6_declare(report, repo)
+  report.guard(r1_getitem, report, repo)
+  report.guard(r2_views, report, repo)
+  report.guard(r3_load, report, repo)
+  report.guard(r4_who, report, repo)
+  report.guard(r5_save_restore, report, repo)
+  report.guard(r6_declare, report, repo)
   from sa.rules import c09  # pylint: disable=g-import-not-at-top
-  c09.r7_metadata(report, repo)
+  report.guard(c09.r7_metadata, report, repo)
